@@ -143,34 +143,46 @@ def coq_stmt(st, idx):
   raise ValueError(st)
 
 
-HEADER = ("From Coq Require Import List Bool Arith.\nFrom PV Require Import Ops.Model Generated.C14_Builtins.\n"
+HEADER = ("From Coq Require Import List.\nFrom PV Require Import Ops.Model Generated.C14_Builtins.\n"
           "Import ListNotations.\n")
 
 
 def eval_models(modules, idx):
-  """modules: list of (classes, mros, [stmt]).  Returns per module (py codes, c codes)."""
-  files = []
+  """modules: list of (classes, mros, [stmt]).  Returns per module (py codes, c codes).
+  Modules are packed into files of <= 500 statements (coqc start-up dominates)."""
+  files = []          # (name, [text], [(module index, n statements)])
+  cur, cur_n, cur_mods = [HEADER], 0, []
   for mi, (classes, mros, sts) in enumerate(modules):
-    for off in range(0, max(len(sts), 1), 500):
+    for off in range(0, len(sts), 500):
       chunk = sts[off:off + 500]
-      body = [HEADER,
-              "Definition upy : table := " + coq_user_table(classes, mros, idx, "py") + ".",
-              "Definition urt : table := " + coq_user_table(classes, mros, idx, "rt") + ".",
-              "Definition sts : list stmt := [" + "; ".join(coq_stmt(s, idx) for s in chunk) + "].",
-              "Eval vm_compute in (map (fun s => code (run_py (mk_table py_rows upy) s)) sts).",
-              "Eval vm_compute in (map (fun s => code (run_c (mk_table rt_rows urt) s)) sts)."]
-      files.append((f"c14_m{mi}_{off}", "\n".join(body) + "\n", mi))
-  res = common.run_cases_parallel([(n, b) for n, b, _ in files])
+      if cur_n and cur_n + len(chunk) > 500:
+        files.append((f"c14_cases_{len(files)}", cur, cur_mods))
+        cur, cur_n, cur_mods = [HEADER], 0, []
+      k = len(cur_mods)
+      cur += [f"Definition upy{k} : table := " + coq_user_table(classes, mros, idx, "py") + ".",
+              f"Definition urt{k} : table := " + coq_user_table(classes, mros, idx, "rt") + ".",
+              f"Definition sts{k} : list stmt := [" + "; ".join(coq_stmt(s, idx) for s in chunk) + "].",
+              f"Eval vm_compute in (map (fun s => code (run_py (mk_table py_rows upy{k}) s)) sts{k}).",
+              f"Eval vm_compute in (map (fun s => code (run_c (mk_table rt_rows urt{k}) s)) sts{k})."]
+      cur_mods.append((mi, len(chunk)))
+      cur_n += len(chunk)
+  if cur_mods:
+    files.append((f"c14_cases_{len(files)}", cur, cur_mods))
+  res = common.run_cases_parallel([(n, "\n".join(b) + "\n") for n, b, _ in files])
   out = [([], []) for _ in modules]
-  for n, _, mi in files:
+  for n, _, mods in files:
     ok, txt = res[n]
     if not ok:
       raise common.BuildError("model evaluation failed for %s:\n%s" % (n, txt[-1500:]))
     vals = common.parse_coq_eval(txt)
-    if len(vals) != 2:
+    if len(vals) != 2 * len(mods):
       raise common.BuildError("unexpected coqc output for %s: %s" % (n, txt[-500:]))
-    for side in (0, 1):
-      out[mi][side].extend(int(t) for t in re.findall(r"\d+", vals[side]))
+    for k, (mi, cnt) in enumerate(mods):
+      for side in (0, 1):
+        got = [int(t) for t in re.findall(r"\d+", vals[2 * k + side])]
+        if len(got) != cnt:
+          raise common.BuildError("model printed %d results for %d statements in %s" % (len(got), cnt, n))
+        out[mi][side].extend(got)
   return out
 
 
@@ -363,12 +375,18 @@ def run(res):
   thorough = res.tier == "thorough"
   r = common.rng(res.seed, "c14")
   # ---- regenerate the builtin tables
-  txt, data = g.regenerate()
+  try:
+    txt, data = g.regenerate()
+  except g.TranslatorError as e:
+    res.obligation("translator:fail-closed", False, str(e))
+    return "proof"
   common.write_if_changed(GEN_FILE, txt)
   res.extra["regenerated"] = dict(file="coq/Generated/C14_Builtins.v", pytype_probes=data["n_py"],
                                   cpython_probes=data["n_rt"], names=len(data["names"]), seconds=data["seconds"])
   translator_checks(res, data)
+  t1 = time.time()
   common.coq_obligations(res, "C14")
+  res.extra["seconds_coq"] = round(time.time() - t1, 1)
   res.trusted_base += ["out-of-tree g++ build of /repo/pytype/typegraph/*.cc (harness/common.py build_cfg)",
                        "CPython 3.12 (/venv/bin/python) as the run-time oracle",
                        "translator harness/props/c14_gen.py (probing real pytype / CPython, emitting the Coq rows)"]
@@ -398,7 +416,10 @@ def run(res):
     if key not in mro_cache:
       mro_cache[key] = g.user_mro(cl)
     mods_for_model.append((cl, mro_cache[key], [rc["st"] for rc in rs if rc["model"]]))
+  t1 = time.time()
   codes = eval_models(mods_for_model, idx)
+  res.extra["seconds_model_eval"] = round(time.time() - t1, 1)
+  t1 = time.time()
   # ---- implementation runs + comparisons + oracle
   stats = dict(kinds=collections.Counter(), exc=collections.Counter(), pytype=collections.Counter(),
                fp=collections.Counter(), fn=collections.Counter())
@@ -413,6 +434,9 @@ def run(res):
                  f"{len(all_py)} of {n_model} statements disagree; first: {json.dumps(all_py[:4], default=str)}")
   res.obligation("correspondence:model-vs-CPython", not all_c,
                  f"{len(all_c)} of {n_model} statements disagree; first: {json.dumps(all_c[:4], default=str)}")
+  res.extra["seconds_impl_runs"] = round(time.time() - t1, 1)
+  res.extra["mismatches_pytype"] = all_py[:40]
+  res.extra["mismatches_cpython"] = all_c[:40]
   res.extra["statements"] = sum(len(rs) for _, _, rs in modules)
   res.extra["statements_with_model"] = n_model
   res.extra["modules"] = len(modules)
